@@ -6,6 +6,7 @@
    conditions, strong induction on the size of the tree). *)
 From Soy Require Import Model.Bytes Model.Num Model.Values Model.Ast Model.Token Model.NumLit Model.Quote Model.ExprParser
   Model.AstPrint Generated.Tables Spec.ExprSyntax Proofs.ExprParserRules Proofs.LiteralProofs Proofs.ValueProofs.
+From Soy Require Proofs.FloatRtPrint.
 Require Import Lia ZifyBool ZifyNat ZifyN.
 Open Scope N_scope.
 
@@ -676,8 +677,8 @@ Proof.
   - (* int *) eapply HP; eauto. intros. cbn [show app]. first_value.
     apply (Value_int (tk pk_itemInteger p (dec_of_Z z))); [reflexivity|]. cbn [t_val tk].
     rewrite dec_of_Z_no_0x. apply parse_int_dec, Hwf.
-  - (* float *) eapply HP; eauto. intros. cbn [show app]. destruct Hwf as (s & Hs1 & Hs2). rewrite Hs1. first_value.
-    apply (Value_float (tk pk_itemFloat p s)); [reflexivity | exact Hs2].
+  - (* float *) eapply HP; eauto. intros. cbn [show app]. destruct Hwf as (Hnorm & s & Hs1). rewrite Hs1. first_value.
+    apply (Value_float_round (tk pk_itemFloat p s)); [reflexivity | exact (FloatRtPrint.fl_print_parse _ _ Hnorm Hs1)].
   - (* string *) eapply HP; eauto. intros. cbn [show app]. first_value.
     apply (Value_string (tk pk_itemString p quoted)); [reflexivity | exact Hwf].
   - (* global *) subst v. eapply HP; eauto. intros ? ? [H1 H2]. apply first_global; assumption.
@@ -990,16 +991,14 @@ Proof.
 Qed.
 
 Definition float_okb (f : fl) : bool :=
-  match fl_print f with
-  | Some s => match parse_float s with Some g => fl_same g f | None => false end
-  | None => false
-  end.
+  match f with FZero _ => true | FFin m _ => Z.odd m | _ => false end &&
+  match fl_print f with Some _ => true | None => false end.
 
 Lemma float_okb_sound f : float_okb f = true -> float_ok f.
 Proof.
-  unfold float_okb, float_ok. destruct (fl_print f) as [s|]; [|discriminate].
-  destruct (parse_float s) as [g|] eqn:E; [|discriminate]. intros H. apply fl_same_eq in H. subst g.
-  exists s. split; [reflexivity | exact E].
+  unfold float_okb, float_ok. intros H. apply andb_prop in H as [H1 H2]. split.
+  - destruct f; cbn [fl_finite_norm]; try discriminate; [exact Logic.I|exact H1].
+  - destruct (fl_print f) as [s|]; [exists s; reflexivity|discriminate].
 Qed.
 
 (* C01 (implicit print): the first item of a printed expression, under any style, is one of
